@@ -10,6 +10,8 @@ use; each theorem is the round trip `generate → abstract writer → parseRoot`
 * `bind_generate_F5` : F4 + `sequence` groups (every interleaving `next_value` rolls out is read back:
                        the parser binds by name, so the instances need not have lists of equal length)
 * `bind_generate_F6` : F5 + `Attributes` maps and `init=False` fields with a primitive default
+* `bind_generate_F7` : F6 + inheritance: an element var of declared class `C` holds an instance of a
+                       proper subclass, written with `xsi:type` and found again by `find_subclass`
 * `bind_generate_FN` : any subset of these features
 
 The value-level exclusions of `FN.valOK` that are genuine defects of the code have machine-checked
@@ -23,7 +25,7 @@ open Py Xs.Bind Xs.Bind.F1 Xs.Bind.FN
 
 /-- **C01, any feature set.** -/
 theorem bind_generate_FN (ft : Feat) (e : BEnv) (Γ : Ctx) (cfg : SerCfg) (pcfg : ParserConfig)
-    (c : ClassId) (v : Val) (hΓ : ctxOK ft Γ = true) (hv : valOK e Γ c v = true) :
+    (c : ClassId) (v : Val) (hΓ : ctxOK ft Γ = true) (hv : valOKI ft.inherit e Γ c v = true) :
     ∃ evs t, generate e Γ cfg v = .ok evs ∧ eventsTree (isDatatype Γ) evs = .ok t ∧
       parseRoot e Γ pcfg c t = .ok (v, 0) :=
   Proofs.C01.roundtrip_FN ft e Γ cfg pcfg c v hΓ hv
@@ -109,7 +111,7 @@ def v3 : Val := .obj (s "Root")
 
 example : ctxOK featF4 Γ3 = true := by decide
 example : valOK e0 Γ3 (s "Root") v3 = true := by decide
--- the smaller feature sets do not admit this universe
+-- the smaller feature sets do not contain this universe
 example : ctxOK featF2 Γ3 = false ∧ ctxOK featF3 Γ3 = false := by decide
 
 example : ∃ evs t, generate e0 Γ3 ⟨true⟩ v3 = .ok evs ∧ eventsTree (isDatatype Γ3) evs = .ok t ∧
@@ -243,7 +245,7 @@ def featF6 : Feat :=
   { nillable := true, tokens := true, wrapper := true, sequence := true, fixed := true, anyAttrs := true }
 
 /-- **C01, fragment F6** = F5 + one `Attributes` map per class (any `namespace`) + `init=False` fields
-with a primitive default.  The map's keys must be admitted by the var, distinct from the declared
+with a primitive default.  The map's keys must match the namespaces of the var, be distinct from the declared
 attributes and not in the `xsi` namespace; its values must not look like `prefix:rest`; a nillable
 class with a map (or a non-nillable class with a map under a nillable var) needs content. -/
 theorem bind_generate_F6 (e : BEnv) (Γ : Ctx) (cfg : SerCfg) (pcfg : ParserConfig) (c : ClassId) (v : Val)
@@ -322,6 +324,121 @@ theorem nillable_class_attributes_witness :
     parseRoot e0 Γ6 {} (s "Root") t11 = .ok (.obj (s "Root")
       [(s "m", .attrs []), (s "k", .none), (s "fx", .prim (.str (s "v1"))), (s "fe", .prim (.int 7)),
        (s "c", .list [.obj (s "Leaf") [(s "m", .attrs [(xsiNil, s "true")]), (s "z", .none)]])], 0) :=
+  ⟨by decide, by decide, rfl, rfl, rfl⟩
+
+
+/-! #### inheritance: `xsi:type` -/
+
+def featF7 : Feat :=
+  { nillable := true, tokens := true, wrapper := true, sequence := true, fixed := true, anyAttrs := true,
+    inherit := true }
+
+/-- **C01, fragment F7** = F6 + instances of proper subclasses under element vars (`valOKI true`):
+the subclass has a qualified name that is an NCName, differs from the element name (otherwise no
+`xsi:type` is written) and is what `XmlContext.find_subclass` finds from the declared class; it has no
+`Attributes` map (the map would capture `xsi:type`). -/
+theorem bind_generate_F7 (e : BEnv) (Γ : Ctx) (cfg : SerCfg) (pcfg : ParserConfig) (c : ClassId) (v : Val)
+    (hΓ : ctxOK featF7 Γ = true) (hv : valOKI true e Γ c v = true) :
+    ∃ evs t, generate e Γ cfg v = .ok evs ∧ eventsTree (isDatatype Γ) evs = .ok t ∧
+      parseRoot e Γ pcfg c t = .ok (v, 0) :=
+  bind_generate_FN featF7 e Γ cfg pcfg c v hΓ hv
+
+def hZ : XmlVar := mkVarN 1 "z" "z" .element [.prim .str]
+def hX (q : String) : XmlVar := mkVarN 2 "extra" q .element [.prim .int]
+def hBase : ClassInfo := classOf "Base" (mkMeta "Base" "Base" none [hZ] []) [⟨s "z", true, some .none⟩]
+/-- `Sub(Base)` in the namespace `urn:s` -/
+def hSub : ClassInfo :=
+  { id := s "Sub", metas := [(none, mkMeta "Sub" "{urn:s}Sub" none [{ hZ with qname := s "{urn:s}z" }, hX "{urn:s}extra"] [])],
+    mro := [s "Sub", s "Base"], bases := [s "Base"],
+    fields := [⟨s "z", true, some .none⟩, ⟨s "extra", true, some .none⟩] }
+/-- `SubSub(Sub)` without namespace of its own (the inherited field keeps its qualified name), nillable -/
+def hSubSub : ClassInfo :=
+  { id := s "SubSub", metas := [(none, { mkMeta "SubSub" "SubSub" none [hZ, hX "{urn:s}extra"] [] with nillable := true })],
+    mro := [s "SubSub", s "Sub", s "Base"], bases := [s "Sub"],
+    fields := [⟨s "z", true, some .none⟩, ⟨s "extra", true, some .none⟩] }
+def hC : XmlVar := mkVarN 1 "c" "c" .element [.cls (s "Base")] (clazz := some (s "Base")) (listElement := true)
+  (default := .listFactory)
+def hD : XmlVar := mkVarN 2 "d" "d" .element [.cls (s "Sub")] (clazz := some (s "Sub")) (nillable := true)
+def hRoot : ClassInfo := classOf "Root" (mkMeta "Root" "Root" none [hC, hD] [])
+  [⟨s "c", true, some (.list [])⟩, ⟨s "d", true, some .none⟩]
+
+/-- `Root` with `c: List[Base]` and a nillable `d: Optional[Sub]`; `Sub(Base)` lives in `urn:s`,
+`SubSub(Sub)` has no namespace -/
+def Γ7 : Ctx :=
+  { classes := [hBase, hSub, hSubSub, hRoot],
+    xsiIndex := [(s "Base", [s "Base"]), (s "{urn:s}Sub", [s "Sub"]), (s "SubSub", [s "SubSub"]), (s "Root", [s "Root"])],
+    datatypes := [(s xsString, some .str)] }
+
+def hObj (cls : String) (z : Val) (extra : Option Int) : Val :=
+  .obj (s cls) ((s "z", z) :: (match extra with | some i => [(s "extra", Val.prim (.int i))] | none => []))
+
+def v7 : Val := .obj (s "Root")
+  [(s "c", .list [hObj "Base" (.prim (.str (s "a"))) none, hObj "Sub" .none (some 1),
+      hObj "SubSub" (.prim (.str (s "b"))) (some 2), hObj "SubSub" .none (some 0)]),
+   (s "d", hObj "SubSub" .none (some 3))]
+
+example : ctxOK featF7 Γ7 = true ∧ valOKI true e0 Γ7 (s "Root") v7 = true ∧
+    valOK e0 Γ7 (s "Root") v7 = false := by decide
+
+/-- the `xsi:type` values the abstract writer stores: `q0` is bound to `urn:s` -/
+example : (match treeOf Γ7 v7 with
+    | .node _ _ _ _ kids _ => kids.map (fun k => match k with | .node _ a _ _ _ _ => a)) =
+    [[], [(xsiType, s "q0:Sub")], [(xsiType, s "SubSub")], [(xsiType, s "SubSub")], [(xsiType, s "SubSub")]] := by
+  rfl
+
+example : ∃ evs t, generate e0 Γ7 {} v7 = .ok evs ∧ eventsTree (isDatatype Γ7) evs = .ok t ∧
+    parseRoot e0 Γ7 {} (s "Root") t = .ok (v7, 0) :=
+  bind_generate_F7 e0 Γ7 {} {} (s "Root") v7 (by decide) (by decide)
+
+/-- witness 12: the element is named like the subclass: `c: Optional[Base]` with element name `Sub`,
+holding `Sub(z="a", extra=1)` (`Sub(Base)` without namespace) -/
+def w12Sub : ClassInfo :=
+  { id := s "Sub", metas := [(none, mkMeta "Sub" "Sub" none [hZ, hX "extra"] [])],
+    mro := [s "Sub", s "Base"], bases := [s "Base"],
+    fields := [⟨s "z", true, some .none⟩, ⟨s "extra", true, some .none⟩] }
+def w12Root : ClassInfo := classOf "Root" (mkMeta "Root" "Root" none
+  [mkVarN 1 "c" "Sub" .element [.cls (s "Base")] (clazz := some (s "Base"))] []) [⟨s "c", true, some .none⟩]
+def Γw12 : Ctx :=
+  { classes := [hBase, w12Sub, w12Root],
+    xsiIndex := [(s "Base", [s "Base"]), (s "Sub", [s "Sub"]), (s "Root", [s "Root"])],
+    datatypes := [(s xsString, some .str)] }
+def w12 : Val := .obj (s "Root") [(s "c", hObj "Sub" (.prim (.str (s "a"))) (some 1))]
+
+def t12 : Tree := .node (s "Root") [] [] none [.node (s "Sub") [] [] none
+  [.node (s "z") [] [] (some (s "a")) [] none, .node (s "extra") [] [] (some (s "1")) [] none] none] none
+
+/-- `real_xsi_type` drops the `xsi:type` because the element name equals the class name; the parser
+builds a `Base` and rejects the child `extra`: the serializer's own output does not parse -/
+theorem derived_named_as_type_witness :
+    ctxOK featF7 Γw12 = true ∧ valOKI true e0 Γw12 (s "Root") w12 = false ∧
+    generate e0 Γw12 {} w12 = .ok (evsOf Γw12 w12) ∧
+    eventsTree (isDatatype Γw12) (evsOf Γw12 w12) = .ok t12 ∧
+    parseRoot e0 Γw12 {} (s "Root") t12 = .error (.parser "Unknown property") :=
+  ⟨by decide, by decide, rfl, rfl, rfl⟩
+
+/-- witness 13: the subclass has an `Attributes` map: `Sub(Base)` with `m: Dict[str, str]` -/
+def w13Sub : ClassInfo :=
+  { id := s "Sub", metas := [(none, { mkMeta "Sub" "Sub" none [hZ] [] with anyAttributes := [aMap 2 ["##any"]] })],
+    mro := [s "Sub", s "Base"], bases := [s "Base"],
+    fields := [⟨s "z", true, some .none⟩, ⟨s "m", true, some (.attrs [])⟩] }
+def w13Root : ClassInfo := classOf "Root" (mkMeta "Root" "Root" none
+  [mkVarN 1 "c" "c" .element [.cls (s "Base")] (clazz := some (s "Base"))] []) [⟨s "c", true, some .none⟩]
+def Γw13 : Ctx :=
+  { classes := [hBase, w13Sub, w13Root],
+    xsiIndex := [(s "Base", [s "Base"]), (s "Sub", [s "Sub"]), (s "Root", [s "Root"])],
+    datatypes := [(s xsString, some .str)] }
+def w13 : Val := .obj (s "Root")
+  [(s "c", .obj (s "Sub") [(s "z", .prim (.str (s "a"))), (s "m", .attrs [])])]
+def t13 : Tree := .node (s "Root") [] [] none
+  [.node (s "c") [(xsiType, s "Sub")] [] none [.node (s "z") [] [] (some (s "a")) [] none] none] none
+
+/-- the parser puts the `xsi:type` attribute into the map of the subclass -/
+theorem derived_attributes_capture_type_witness :
+    ctxOK featF7 Γw13 = true ∧ valOKI true e0 Γw13 (s "Root") w13 = false ∧
+    generate e0 Γw13 {} w13 = .ok (evsOf Γw13 w13) ∧
+    eventsTree (isDatatype Γw13) (evsOf Γw13 w13) = .ok t13 ∧
+    parseRoot e0 Γw13 {} (s "Root") t13 = .ok (.obj (s "Root")
+      [(s "c", .obj (s "Sub") [(s "z", .prim (.str (s "a"))), (s "m", .attrs [(xsiType, s "Sub")])])], 0) :=
   ⟨by decide, by decide, rfl, rfl, rfl⟩
 
 end Props.C01
